@@ -134,6 +134,8 @@ func Load(dir string, bc BuildConfig, overlay map[string][]byte) (*Program, erro
 	}
 	var notes []string
 	cur := overlay
+	funcAliases = map[string]*types.Func{}
+	notes = append(notes, p.computeAliases(known)...)
 	for round := 1; round <= 4; round++ {
 		ov, ns := p.normaliseOnce(known, round)
 		if ov == nil {
@@ -153,6 +155,8 @@ func Load(dir string, bc BuildConfig, overlay map[string][]byte) (*Program, erro
 		}
 		notes = append(notes, ns...)
 		p, cur = p2, merged
+		funcAliases = map[string]*types.Func{}
+		p.computeAliases(known)
 	}
 	p.Normalised = notes
 	return p, nil
@@ -335,21 +339,81 @@ func (p *Program) Func(pkg, recv, name string) *FuncSrc {
 	if pk == nil {
 		return nil
 	}
-	if recv == "" {
-		if f, ok := pk.Types.Scope().Lookup(name).(*types.Func); ok {
+	alias := func() *FuncSrc {
+		if f := funcAliases[shortPkg(pk.PkgPath)+"|"+recv+"|"+name]; f != nil {
 			return p.declOf[f]
 		}
 		return nil
 	}
+	if recv == "" {
+		if f, ok := pk.Types.Scope().Lookup(name).(*types.Func); ok {
+			return p.declOf[f]
+		}
+		return alias()
+	}
 	tn, ok := pk.Types.Scope().Lookup(recv).(*types.TypeName)
 	if !ok {
-		return nil
+		return alias()
 	}
 	obj, _, _ := types.LookupFieldOrMethod(types.NewPointer(tn.Type()), true, pk.Types, name)
 	if f, ok := obj.(*types.Func); ok {
 		return p.declOf[f]
 	}
-	return nil
+	return alias()
+}
+
+// funcAliases: a function of the vocabulary (known_functions.txt) that is
+// missing from the tree while exactly one new function of the same package
+// has its name - a function turned into a method, a method into a function,
+// or moved to another receiver - is that function: anchors and call-site
+// tests (Func, fnIs) resolve to it, and it is not inlined away.  Key:
+// "pkg|Recv|name" as the rules spell it.
+var funcAliases = map[string]*types.Func{}
+
+func (p *Program) computeAliases(known map[string]bool) []string {
+	var notes []string
+	present := map[string]bool{}
+	for _, fs := range p.allSrc {
+		if fs.Decl != nil {
+			present[fs.Name] = true
+		}
+	}
+	var names []string
+	for k := range known {
+		names = append(names, k)
+	}
+	sort.Strings(names)
+	for _, k := range names {
+		if present[k] {
+			continue
+		}
+		// k = pkg.name | pkg.(*T).name | pkg.(T).name
+		i := strings.IndexByte(k, '.')
+		if i < 0 {
+			continue
+		}
+		pkg, rest := k[:i], k[i+1:]
+		recv, name := "", rest
+		if strings.HasPrefix(rest, "(") {
+			j := strings.Index(rest, ").")
+			if j < 0 {
+				continue
+			}
+			recv, name = strings.TrimPrefix(rest[1:j], "*"), rest[j+2:]
+		}
+		var cands []*FuncSrc
+		for _, fs := range p.allSrc {
+			if fs.Decl == nil || fs.Obj == nil || known[fs.Name] || shortPkg(fs.Pkg.PkgPath) != pkg || fs.Obj.Name() != name {
+				continue
+			}
+			cands = append(cands, fs)
+		}
+		if len(cands) == 1 {
+			funcAliases[pkg+"|"+recv+"|"+name] = cands[0].Obj
+			notes = append(notes, fmt.Sprintf("%s is missing and %s is new: taken to be the same function", k, cands[0].Name))
+		}
+	}
+	return notes
 }
 
 // Field resolves a struct field of a named type of the module.
